@@ -91,7 +91,9 @@ impl ArcIdleConfig {
             idle_config: self.clone(),
             heartbeat_times: 0,
             last_effective_comm: None,
-            idle_begin_at: None,
+            // a path on which nothing effective is ever exchanged (e.g. one created for a datagram
+            // that then fails to authenticate) is idle from its creation on
+            idle_begin_at: Some(Instant::now()),
             sent_since_rcvd: false,
         })))
     }
